@@ -16,15 +16,20 @@ LEVEL_TEXT = ('Partial. Coq theorems over R about kernels regenerated from Tenso
               'selects; now generated from the source), equal the divided differences of ln and x^m for all positive distinct arguments in '
               'either order, and the power kernel returns m x^(m-1) on coinciding arguments. Not proved for the kernels: negative arguments, '
               'binary64 rounding (log1p/expm1 are ln(1+x)/exp(y)-1 over R; the implementation values are compared with 60-digit divided '
-              'differences on every run). The accuracy of eigen_sym33_unit, sqrt/exp/log/pow_symm, their '
+              'differences on every run). First stage of eigen_sym33_non_unit (generated as a prefix of the routine: mean c1, invariants c2, c3, '
+              'trisection argument rr, trigonometric root eval2 with the Pade kernel): x^3+c2 x+c3 is the characteristic polynomial of the deviator '
+              'of sym A; for c2<0 and |rr|<=1 the residual of eval2 is <= 2e-13 (-c2/3)^(3/2) and eval2 is within 4e-14 sqrt(-c2/3) of an exact root '
+              'that has the largest magnitude among the roots; |rr|<=1 whenever the cubic has three real roots. Not proved there: the spectral '
+              'theorem itself, the other two eigenvalues (deflation + Wilkinson shift, not the trigonometric formula), eigenvectors, the final '
+              'argsort, rounding. The accuracy of eigen_sym33_unit, sqrt/exp/log/pow_symm, their '
               'JVP rules, sqrtm and logm_iss is NOT proved for all inputs: every explored instance is certified by Coq result checkers '
               '(proved sound) executed by vm_compute on the exact rational values of the implementation outputs; the derivative '
               'rules of sqrt/log/exp/pow_symm are compared per instance (Coq checker) with the closed-form Daleckii-Krein derivative whose '
               'divided differences are computed in 60-digit arithmetic, and with central differences (tests, not proofs).')
 TECHNIQUE = 'Coq proof (Reals + Interval) over regenerated kernels; proved-sound result checkers over Q run by vm_compute on implementation outputs'
 GEN = ['Math', 'TensorMath', 'TensorMathFun']
-TARGETS = ['model/M_C08.vo', 'proofs/L_C08.vo', 'model/M_C12.vo', 'proofs/L_C12.vo', 'proofs/L_C12_RD.vo']
-COQ_FILES = ['base/Num.v', 'model/M_C12.v', 'proofs/L_C12.v', 'proofs/L_C12_RD.v', 'props/P_C12.v']
+TARGETS = ['model/M_C08.vo', 'proofs/L_C08.vo', 'model/M_C12.vo', 'proofs/L_C12.vo', 'proofs/L_C12_RD.vo', 'model/M_C12_Trig.vo', 'proofs/L_C12_Trig.vo']
+COQ_FILES = ['base/Num.v', 'model/M_C12.v', 'model/M_C12_Trig.v', 'proofs/L_C12.v', 'proofs/L_C12_RD.v', 'proofs/L_C12_Trig.v', 'props/P_C12.v']
 BUILD_TIMEOUT = 1500
 TRUSTED = ['Coq 8.16.1 kernel + vm_compute (no native_compute); coq-interval for the Pade bound (PrimFloat/Uint63 primitives)',
            'tools/vlib/py2coq.py translator, cross-checked by running the generated scalar kernels at binary64 against the implementation',
@@ -39,6 +44,8 @@ ASSUMPTIONS = ['exact real arithmetic in theorems (a)-(c)',
                '1e-13 (arithmetic kernels) / 1e-12 (kernels using XLA log1p/expm1, themselves ~2e-14 accurate)',
                'the closed-form derivative reference uses the constructed (R, lam) of A = R diag(lam) R^T (A itself is that product rounded to binary64)',
                'jax.argsort is stable (ties keep the operand order) -- the translator models argsort of a 2-vector as a swap iff the second entry is strictly smaller',
+               'trig-stage theorems: hypothesis |rr| <= 1 (clamp inactive), which holds for every real symmetric tensor in exact arithmetic by '
+               'the spectral theorem (not proved; C12_trig_argument_bounded derives it from three real roots)',
                'jax.jvp applies the custom rules that the library registers']
 RULE = ('symmetric 3x3 tensors A = s R diag(l) R^T: s over 1e-20..1e20 (40 decades), eigenvalue gaps exactly 0 (diagonal / permuted '
         'construction), 1e-14..1 relative, rank deficient, generic and in-plane block orientations; each evaluated as a single compiled '
@@ -588,6 +595,69 @@ def l2_rd(ctx):
                                    exact=float(rf)), concrete=True)
 
 
+def l1_trig(ctx):
+    """round 3: the generated first stage of eigen_sym33_non_unit (mean, invariants, trisection argument, trigonometric root with the
+    Pade kernel) executed at binary64 versus the implementation: c1 + eval2 must be the implementation's largest (rr >= 0) or smallest
+    (rr < 0) eigenvalue; when the stage says `not c2 < -1e-30 c1^2` all three returned eigenvalues must be c1.  Plus the conclusion of
+    C12_trig_root_residual on the implementation's value, with exact rational arithmetic: |p(lambda - c1)| <= 1e-12 (-c2/3)^(3/2) +
+    (3 lambda'^2 + |c2|) 8 eps |A|  (p = characteristic polynomial of the deviator; the second term is the first-order effect of an
+    absolute eigenvalue error of 8 eps |A|)."""
+    import jax.numpy as np
+    import numpy as onp
+    import optimism  # noqa: F401
+    from optimism import TensorMath as TM
+    from fractions import Fraction
+    r = ctx.rng('l1trig')
+    eps = 2.220446049250313e-16
+    f = jf('eig_non_unit', TM.eigen_sym33_non_unit, False)
+    cases, exprs = [], []
+    for _ in range(ctx.n(60, 600)):
+        A, kind, gap = gen_sym(r, wide=False)
+        A = onp.array(A)
+        cases.append((A, kind, gap))
+        exprs.append("fencs (let '(c1, c2, c3, rr, arg, e2) := eig_trig_stage %s in [c1; c2; rr; e2])" % ' '.join(C.cf(float(x)) for x in A.reshape(-1)))
+    res = C.coq_eval(IMPORTS, exprs, 'C12trig', shard=200)
+    mism = 0
+    for (A, kind, gap), zs in zip(cases, res):
+        c1, c2, rr, e2 = C.dec_floats(zs)
+        ev = onp.array(f(np.array(A))[0])
+        nA = float(onp.max(onp.abs(A)))
+        ctx.count('trig_stage_model_vs_impl')
+        if c2 < -1e-30 * c1 * c1:
+            ctx.count('trig_stage_rr_nonnegative' if rr >= 0 else 'trig_stage_rr_negative')
+            got, want = float(ev[2] if rr >= 0 else ev[0]), c1 + e2
+            tol = (1e-13 if abs(rr) > 1e-12 else 1e-10) * nA
+            ok = abs(got - want) <= tol
+        else:
+            ctx.count('trig_stage_isotropic_fallback')
+            got, want, tol = [float(x) for x in ev], c1, 4 * eps * nA
+            ok = all(abs(x - c1) <= tol for x in got)
+        if not ok:
+            mism += 1
+            if mism < 6:
+                ctx.fail('correspondence', 'generated eig_trig_stage gives c1 + eval2 = %r (c2 = %r, rr = %r), implementation eigenvalues %r [%s]'
+                         % (want, c2, rr, ev.tolist(), kind), case=dict(check='correspondence', kernel='eig_trig_stage', kind=kind, gap=gap, batch=False, A=A.tolist()))
+            continue
+        # conclusion of the residual theorem on the implementation's eigenvalue, in exact rational arithmetic
+        if c2 < -1e-30 * c1 * c1:
+            S = [[(Fraction(float(A[i, j])) + Fraction(float(A[j, i]))) / 2 for j in range(3)] for i in range(3)]
+            m = (S[0][0] + S[1][1] + S[2][2]) / 3
+            D = [[S[i][j] - (m if i == j else 0) for j in range(3)] for i in range(3)]
+            q2 = D[0][0] * D[1][1] + D[1][1] * D[2][2] + D[2][2] * D[0][0] - D[0][1] ** 2 - D[1][2] ** 2 - D[2][0] ** 2
+            q3 = -(D[0][0] * (D[1][1] * D[2][2] - D[1][2] * D[2][1]) - D[0][1] * (D[1][0] * D[2][2] - D[1][2] * D[2][0])
+                   + D[0][2] * (D[1][0] * D[2][1] - D[1][1] * D[2][0]))
+            x = Fraction(float(got)) - m
+            resid = abs(x ** 3 + q2 * x + q3)
+            a3 = max(float(-q2) / 3, 0.0)
+            bound = 1e-12 * a3 ** 1.5 + (3 * float(x) ** 2 + abs(float(q2))) * 8 * eps * nA
+            ctx.count('trig_residual_conclusion_checks')
+            if not float(resid) <= bound:
+                ctx.fail('conclusion', 'extreme eigenvalue %r of eigen_sym33_non_unit leaves a residual %.3g in the characteristic polynomial of the '
+                         'deviator (bound %.3g) [%s, relative gap %.3g]' % (got, float(resid), bound, kind, gap),
+                         case=dict(check='trig root residual', kind=kind, gap=gap, batch=False, A=A.tolist(), value=got), concrete=True)
+    ctx.count('trig_stage_mismatches', mism)
+
+
 def evaluate(ctx, items):
     exprs = [e for e, _ in items if e is not None]
     res = C.coq_eval(IMPORTS, exprs, 'C12', shard=120, timeout=900)
@@ -624,11 +694,18 @@ def correspondence(ctx, model_ok):
     ctx.cov['checks'] = hist
     ctx.cov['tolerances'] = dict(identities=TOL, derivative_identities=TOLD, central_differences=1e-6)
     ctx.sample(dict(items[0][1], expr=items[0][0][:300]))
-    for f in fails[:40]:
+    # failures that are exactly the open known finding must not crowd out fresh ones (the thorough budget produces > 40 EIGVMAP
+    # rejections, and a cap applied before the driver's filtering hid every other rejection -- how two seeded changes were missed)
+    known = [k for k in C.load_known_findings() if k['property'] == ID and k['status'] == 'open']
+    is_known = lambda f: any(matches_finding(f, k) for k in known)
+    fresh = [f for f in fails if not is_known(f)]
+    ctx.count('rejections_matching_open_finding', len(fails) - len(fresh))
+    for f in fresh[:40] + [f for f in fails if is_known(f)][:10]:
         ctx.fail(f['kind'], f['what'], case=f['case'], concrete=True)
     l1_scalar(ctx)
     l1_rd(ctx)
     l2_rd(ctx)
+    l1_trig(ctx)
 
 
 def search(ctx, reasons):
@@ -638,6 +715,10 @@ def search(ctx, reasons):
     c2.seed = ctx.seed + 1
     try:
         l2_rd(c2)
+        try:
+            l1_trig(c2)      # needs only the generated kernels; its residual clause yields a concrete tensor
+        except C.CoqError:
+            pass
         early = [f for f in c2.failures if f.get('concrete')]
         if early:
             return early[0]
